@@ -26,14 +26,10 @@ package node
 //@ func (*module).AuthNewWithExpiry
 //@   property C19
 //@   noframe
-//@   requires !$Stamped
-//@   havoc $Stamped
 //@   callpre authtoken.NewSignedJWT: $arg0 == m.signer && $arg1 == permissions && $arg2 == ttl
 //@ func (*module).AuthNew
 //@   property C19
 //@   noframe
-//@   requires !$Stamped
-//@   havoc $Stamped
 //@   callpre authtoken.NewSignedJWT: $arg0 == m.signer && $arg1 == permissions && $arg2 == 0
 //@ func (*module).AuthVerify
 //@   property C19
